@@ -88,6 +88,8 @@ class FnContract:
         self.prelude = None
         self.epilogue = None
         self.loops = {}      # n -> (Block, iter_name)
+        self.loopbodies = {} # n -> Block inserted at the start of the loop body
+        self.loopends = {}   # n -> Block inserted before the closing brace of the loop body
         self.anchors = []    # (where, regex, Block)
         self.tags = set()
         self.opaque_body = False  # never verify the body, even when the unit asks (needs reason)
@@ -157,9 +159,23 @@ def parse(path):
                     else: tags.append(x)
                 cur_block = Block('loop', ' '.join(tags), path, no)
                 cur_fn.loops[n] = (cur_block, it)
-            elif d in ('@before', '@after', '@beforeall', '@afterall'):
+            elif d == '@loopend':
+                # text inserted just before the closing brace of the body of loop n
+                n = int(arg.split()[0])
+                cur_block = Block('loopend', '', path, no)
+                cur_fn.loopends[n] = cur_block
+            elif d == '@loopbody':
+                # text inserted at the very start of the body of loop n (robust against edits of the first statement)
+                n = int(arg.split()[0])
+                cur_block = Block('loopbody', '', path, no)
+                cur_fn.loopbodies[n] = cur_block
+            elif re.match(r'@(before|after)(all|\[\d+\])?$', d):
+                # @before[k] / @after[k]: the k-th line matching the regex (instead of "the unique line")
+                mo_ = re.match(r'@(before|after)(all|\[(\d+)\])?$', d)
                 cur_block = Block('anchor', arg, path, no)
-                cur_fn.anchors.append((d[1:], arg, cur_block))
+                where_ = mo_.group(1) + ('all' if mo_.group(2) == 'all' else '')
+                cur_block.occurrence = int(mo_.group(3)) if mo_.group(3) else None
+                cur_fn.anchors.append((where_, arg, cur_block))
             elif d == '@raw':
                 cur_block = Block('raw', arg, path, no); fs.raw.append(cur_block)
                 cur_fn = None; cur_type = None
